@@ -95,6 +95,23 @@ def dictpile_obligations(repo, chk, rule):
            "the default (the ABSENT marker for generated code) is returned only after every dict was searched")
 
 
+    # the pile built for generated code: the function's own module globals first, then the builtins (the order LOAD_GLOBAL uses), ABSENT as default
+    from ..astq import expand
+    tr = repo.func("transform.transform")
+    piles = [n for n in walk_local(tr.node) if isinstance(n, ast.Call) and norm(n.func) == "DictPile"]
+    why = f"{len(piles)} DictPile(...) constructions in transform()"
+    ok = False
+    if len(piles) == 1:
+        pc = piles[0]
+        args = [expand(a, tr.node) for a in pc.args]
+        kws = {k.arg: expand(k.value, tr.node) for k in pc.keywords}
+        ok = args == ["fn.__globals__", "__builtins__"] and kws == {"default": "ABSENT"}
+        why = f"DictPile({', '.join(args)}{''.join(f', {k}={v}' for k, v in kws.items())})"
+    chk.ob(rule, "transform.transform:globals-pile-is-module-globals-then-builtins-default-ABSENT", ok, tr.where,
+           f"generated code reads an external name through a pile that consults the function's module globals before the builtins -- a module-level name "
+           f"that shadows a builtin (`from numpy import round`) resolves as in the original -- and yields the ABSENT marker only when neither has it: {why}")
+
+
 def call_aggregates(repo, prop):
     """selector.Call.<prop> looks at the level's own captures AND at its child calls (a value condition / receiver constraint
     written on a nested call decides whether the capture check is installed at all)."""
@@ -250,3 +267,23 @@ def variant_selection_obligations(repo, chk, rule, suffix=""):
         and all(t in (f"{cp} = frozenset({cp})",) for t, c, n in ftf.items if isinstance(n, ast.Assign) and any(is_name(x, cp) for x in n.targets))
     chk.ob(rule, "transform.TransformSet.transform_for:cache-hit-first" + suffix, ok, tf.where,
            "the variant cache is keyed by the full capture set (only frozen, never reduced); a registered key (including None) is returned without re-transforming; a new variant instruments exactly the requested captures and is registered under that same key")
+
+
+def activation_integrity_obligations(repo, chk, rule, what="the probes that are active"):
+    """Shared structural fact behind every delivery property: instrumentation of a function is counted per user, and an activation that is
+    refused half-way undoes exactly what it had done (rollback journal appended to only after the acquire it records).  If the journal
+    runs ahead, a refusal releases a function once too many and probes still active on it silently stop receiving events."""
+    from ..pairing import contextvars_of, journal_findings
+    from ..callgraph import CallGraph
+    cg = CallGraph(repo)
+    n = 0
+    for jq in ("probe.Probe._install_tooling", "overlay.autotool"):
+        jf = repo.func(jq)
+        for journal, res, site, ok_, detail in journal_findings(repo, jf, cg, contextvars_of(repo)):
+            n += 1
+            chk.ob(rule, f"{jq}:a-refused-activation-leaves-active-instrumentation-alone[{journal}:{site}]", ok_, jf.where,
+                   f"when an activation is refused, {jq} undoes exactly the tooling that had completed (journal `{journal}`), so {what} keep the "
+                   f"instrumentation their events come from" if ok_ else detail)
+    if n == 0:
+        from ..core import AnalysisError
+        raise AnalysisError("no rollback journal found in Probe._install_tooling / overlay.autotool")
